@@ -249,3 +249,90 @@ Theorem C04_liveness_unfixed_refuted :
       o = prev \/ (CommitSM.o_roots o = [] /\ CommitSM.o_type o <> CommitSM.T_generated).
 Proof. exact liveness_unfixed_refuted. Qed.
 Print Assumptions C04_liveness_unfixed_refuted.
+
+(* ---- the executable properties of Check/C04_check.v are the property (judge soundness) ---- *)
+Require Import Verif.Model.Transmit Verif.Model.CommitSM Verif.Check.C03_check Verif.Check.C04_check
+               Verif.Proofs.JudgeSoundC03P Verif.Proofs.JudgeSoundC04P.
+
+(* sink C04_transmit. An ARBITRARY verdict that passes tr_ok: if it is "transmit" then the report satisfies the
+   conclusion of C04_transmit_starts_at_cursor (1.), the oracle's destination read did not fail if the report has
+   roots (C04_transmit_reader_failure), the off-ramp would accept it in the state it was checked against
+   (C04_no_stale_send, 2.), and every root is the true root of its interval (the harness's ground truth; 5. + 6.). *)
+Theorem C04_judge_tr_sound : forall roots c fails o,
+  tr_ok (roots, c, fails) o = true ->
+  let rr := map to_rroot roots in
+  o = 1%N ->
+  (NoDup (map rr_chain rr) /\ forall r, In r rr -> rr_start r = next_of c (rr_chain r)) /\
+  (rr <> [] -> fails = false) /\
+  ((forall r, In r rr -> (rr_start r <= rr_end r)%N) -> exists c', apply_roots c rr = Some c') /\
+  (forall t, In t roots -> snd t = true).
+Proof. exact (fun roots c fails o => tr_ok_sound (roots, c, fails) o). Qed.
+Print Assumptions C04_judge_tr_sound.
+
+(* the model's verdict passes whenever the ground-truth bits are all true (the model does not see them; that they are
+   true on every report an honest oracle checks is what 5. + 6. prove of the round model under the f assumption) *)
+Theorem C04_judge_tr_model_passes : forall roots c fails,
+  (forall t, In t roots -> snd t = true) -> tr_ok (roots, c, fails) (tr_model (roots, c, fails)) = true.
+Proof. exact tr_model_passes. Qed.
+Print Assumptions C04_judge_tr_model_passes.
+
+(* before the repair of tr_ok: "transmit" after a failed destination read passed the executable property *)
+Theorem C04_judge_tr_before_unsound :
+  let i := ([(5, (10, 12), true)]%N, [(5, 10)]%N, true) in
+  tr_ok_before i 1 = true /\ ~ tr_P i 1%N /\ tr_ok i 1 = false /\ tr_model i = 0%N.
+Proof. exact tr_ok_before_unsound. Qed.
+Print Assumptions C04_judge_tr_before_unsound.
+
+(* sink C04_state. An ARBITRARY answer of ValidateMerkleRootsState that passes st_ok: if it is "valid" then the
+   conclusion of 1. holds against the scripted cursor, the reader was the honest one if there are roots, and the
+   off-ramp would accept the roots (2.). *)
+Theorem C04_judge_st_sound : forall roots c mode o,
+  st_ok (roots, c, mode) o = true ->
+  o = true ->
+  (NoDup (map rr_chain roots) /\ forall r, In r roots -> rr_start r = next_of c (rr_chain r)) /\
+  (roots <> [] -> mode = 0%N) /\
+  ((forall r, In r roots -> (rr_start r <= rr_end r)%N) -> exists c', apply_roots c roots = Some c').
+Proof. exact (fun roots c mode o => st_ok_sound (roots, c, mode) o). Qed.
+Print Assumptions C04_judge_st_sound.
+
+(* the generator draws the reader script from {0 honest, 1 error, 2 short, 3 long} *)
+Theorem C04_judge_st_model_passes : forall roots c mode,
+  (mode <= 3)%N -> st_ok (roots, c, mode) (st_model (roots, c, mode)) = true.
+Proof. exact st_model_passes. Qed.
+Print Assumptions C04_judge_st_model_passes.
+
+(* sink C04_final. An ARBITRARY final state that passes fin_ok: every chain it lists holds intervals that are
+   consecutive from the initial cursor (the statement of C04_committed_contiguous, 3., contiguous_from itself), and
+   the honest oracles' outcomes never diverged. *)
+Theorem C04_judge_fin_sound : forall init reports comm cur div,
+  fin_ok (init, reports) (comm, cur, div) = true ->
+  (forall k ivs, In (k, ivs) comm -> contiguous_from (next_of init k) ivs) /\ div = 0%N.
+Proof. exact (fun init reports comm cur div => fin_ok_sound (init, reports) (comm, cur, div)). Qed.
+Print Assumptions C04_judge_fin_sound.
+
+Theorem C04_judge_fin_model_passes : forall i, fin_ok i (fin_model i) = true.
+Proof. exact fin_model_passes. Qed.
+Print Assumptions C04_judge_fin_model_passes.
+
+(* sink C04_round. An ARBITRARY outcome of commit.Plugin.Outcome that passes rd_ok satisfies the C03 clauses on the
+   composed round (C03_judge_step_sound: edges, waiting exits, carried cursor, retry identity, progress) and the
+   clause of C04_report_roots_are_agreed (6.). *)
+Theorem C04_judge_rd_sound : forall F dest max n prev retry aos o,
+  rd_ok (F, dest, max, n, prev, retry, aos) o = true ->
+  let co := round_cons F dest aos in
+  round_P max prev (mkQuery retry None, co) o /\
+  (forall c r, co = Some c -> In r (o_roots o) ->
+     (next_state (o_type prev) = Building /\ retry = true /\ In r (o_roots prev)) \/ In r (c_roots c)).
+Proof. exact (fun F dest max n prev retry aos o => rd_ok_sound (F, dest, max, n, prev, retry, aos) o). Qed.
+Print Assumptions C04_judge_rd_sound.
+
+Theorem C04_judge_rd_model_passes : forall i, rd_ok i (rd_model i) = true.
+Proof. exact rd_model_passes. Qed.
+Print Assumptions C04_judge_rd_model_passes.
+
+(* before the repair of rd_ok: a generated report carrying a root nobody agreed on passed the executable property *)
+Theorem C04_judge_rd_before_unsound :
+  let o := mkOutcome T_generated [] [(1, (10, 12), 7, 666)%N] [(1, 10)%N] 0 [] cfg_empty in
+  rd_ok_before jx_in o = true /\ ~ rd_P jx_in o /\ rd_ok jx_in o = false.
+Proof. exact rd_ok_before_unsound. Qed.
+Print Assumptions C04_judge_rd_before_unsound.
